@@ -29,6 +29,9 @@ func immediate(name string) int64 {
 // representatives; in the thorough tier the full cross product.
 func pick2(sizeA, sizeB int) (string, string) {
 	ra, rb := regsOf(sizeA), regsOf(sizeB)
+	if liteRegs {
+		return vrt.ChooseStr("ra", []string{ra[0], ra[3]}), vrt.ChooseStr("rb", []string{rb[6]})
+	}
 	if vrt.Param("allregs") != 0 {
 		return vrt.ChooseStr("ra", ra), vrt.ChooseStr("rb", rb)
 	}
@@ -44,10 +47,33 @@ func pick2(sizeA, sizeB int) (string, string) {
 
 var c01Sizes = []int{8, 16, 32}
 
+// liteRegs restricts register choices to one or two representatives (used by
+// harnesses whose subject is not the register number).
+var liteRegs bool
+
+// anyReg chooses any register of the width (two representatives when lite).
+func anyReg(name string, size int) string {
+	rs := regsOf(size)
+	if liteRegs {
+		return vrt.ChooseStr(name, []string{rs[0], rs[3]})
+	}
+	return vrt.ChooseStr(name, rs)
+}
+
+func aluOp() string {
+	if liteRegs {
+		return vrt.ChooseStr("alu", []string{"ADD", "CMP"})
+	}
+	return vrt.ChooseStr("alu", alu)
+}
+
 // pickReg chooses a register of the given width: every register in the
 // thorough tier; the accumulator and three others in the quick tier.
 func pickReg(name string, size int) string {
 	rs := regsOf(size)
+	if liteRegs {
+		return vrt.ChooseStr(name, []string{rs[0], rs[3]})
+	}
 	if vrt.Param("allregs") != 0 {
 		return vrt.ChooseStr(name, rs)
 	}
@@ -96,10 +122,10 @@ func buildC01(form string, mode int) Stmt {
 		return mkStmt("MOV", mode, R(pickReg("ra", sz)), I(immediate("imm")))
 	case "mov_rm":
 		sz := size()
-		return mkStmt("MOV", mode, R(vrt.ChooseStr("ra", regsOf(sz))), M(memShape(mode)))
+		return mkStmt("MOV", mode, R(anyReg("ra", sz)), M(memShape(mode)))
 	case "mov_mr":
 		sz := size()
-		return mkStmt("MOV", mode, M(memShape(mode)), R(vrt.ChooseStr("ra", regsOf(sz))))
+		return mkStmt("MOV", mode, M(memShape(mode)), R(anyReg("ra", sz)))
 	case "mov_mi":
 		sz := size()
 		m := memShapeFew(mode)
@@ -122,24 +148,24 @@ func buildC01(form string, mode int) Stmt {
 	case "alu_rr":
 		sz := size()
 		a, b := pick2(sz, sz)
-		return mkStmt(vrt.ChooseStr("alu", alu), mode, R(a), R(b))
+		return mkStmt(aluOp(), mode, R(a), R(b))
 	case "alu_ri":
 		sz := size()
-		return mkStmt(vrt.ChooseStr("alu", alu), mode, R(pickReg("ra", sz)), I(immediate("imm")))
+		return mkStmt(aluOp(), mode, R(pickReg("ra", sz)), I(immediate("imm")))
 	case "alu_rm":
 		sz := size()
-		return mkStmt(vrt.ChooseStr("alu", alu), mode, R(vrt.ChooseStr("ra", regsOf(sz))), M(memShape(mode)))
+		return mkStmt(aluOp(), mode, R(anyReg("ra", sz)), M(memShape(mode)))
 	case "alu_mr":
 		sz := size()
-		return mkStmt(vrt.ChooseStr("alu", alu), mode, M(memShape(mode)), R(vrt.ChooseStr("ra", regsOf(sz))))
+		return mkStmt(aluOp(), mode, M(memShape(mode)), R(anyReg("ra", sz)))
 	case "alu_mi":
 		sz := size()
 		m := memShapeFew(mode)
 		m.SizeKw = kwOf(sz)
-		return mkStmt(vrt.ChooseStr("alu", alu), mode, M(m), I(immediate("imm")))
+		return mkStmt(aluOp(), mode, M(m), I(immediate("imm")))
 	case "not_r":
 		sz := size()
-		return mkStmt("NOT", mode, R(vrt.ChooseStr("ra", regsOf(sz))))
+		return mkStmt("NOT", mode, R(anyReg("ra", sz)))
 	case "not_m":
 		sz := size()
 		m := memShape(mode)
@@ -191,10 +217,10 @@ func buildC01(form string, mode int) Stmt {
 		return st
 	case "push_r":
 		sz := size1632()
-		return mkStmt("PUSH", mode, R(vrt.ChooseStr("ra", regsOf(sz))))
+		return mkStmt("PUSH", mode, R(anyReg("ra", sz)))
 	case "pop_r":
 		sz := size1632()
-		return mkStmt("POP", mode, R(vrt.ChooseStr("ra", regsOf(sz))))
+		return mkStmt("POP", mode, R(anyReg("ra", sz)))
 	case "push_s":
 		return mkStmt("PUSH", mode, R(vrt.ChooseStr("sr", sregs)))
 	case "pop_s":
